@@ -8,8 +8,51 @@ open OG.C02
 
 /-! ### run refinement -/
 
-theorem step_R {st : St} {sp : Sp} (U : Univ) (h : R st sp) (op : Op) (hs : safeOp st op = true) :
-    R (st.step U op) (sp.step U op) := by
+theorem partsOK_tick {st : St} (hp : PartsOK st.idx) : PartsOK st.tick.idx := by
+  refine hp.congr rfl rfl rfl ?_
+  intro i hi
+  simp only [St.tick, List.mem_append, List.not_mem_nil, or_false] at hi
+  exact hp.delSub i hi
+
+/-- every operation keeps the parts invariant (no `Safe` needed: it is a property of the index
+table alone). -/
+theorem partsOK_step {st : St} (U : Univ) (hp : PartsOK st.idx) (op : Op) : PartsOK (st.step U op).idx := by
+  cases op with
+  | write b =>
+    simp only [St.step, St.write]
+    exact partsOK_flushRaw (cover_resolveRows b hp.toCover)
+  | flush => exact hp
+  | compact => exact hp
+  | merge => exact hp
+  | dropSeries m p =>
+    refine hp.congr rfl rfl rfl ?_
+    intro i hi
+    simp only [St.step, St.dropSeries, List.mem_append] at hi ⊢
+    rcases hi with hi | hi | hi
+    · exact Or.inl (hp.delSub i (Or.inl hi))
+    · exact Or.inl (hp.delSub i (Or.inr hi))
+    · exact Or.inr hi
+  | dropMst m => exact hp
+  | purge => exact partsOK_purge hp
+  | tick => exact partsOK_tick hp
+  | reopen =>
+    simp only [St.step, St.reopen, St.recover]
+    exact partsOK_flushRaw (cover_resolveBatches _ (cover_restart (partsOK_tick hp)))
+  | crash =>
+    simp only [St.step, St.crash, St.recover]
+    exact partsOK_flushRaw (cover_resolveBatches _ (cover_restart hp))
+  | imerge sel => exact partsOK_mend (partsOK_mbegin hp sel)
+  | mbegin sel => exact partsOK_mbegin hp sel
+  | mend => exact partsOK_mend hp
+  | regroup gs => exact partsOK_regroup hp gs
+
+theorem partsOK_run (U : Univ) (ops : List Op) : ∀ (st : St), PartsOK st.idx → PartsOK (run U st ops).idx := by
+  induction ops with
+  | nil => intro st h; exact h
+  | cons op ops ih => intro st h; exact ih _ (partsOK_step U h op)
+
+theorem step_R {st : St} {sp : Sp} (U : Univ) (h : R st sp) (hp : PartsOK st.idx) (op : Op)
+    (hs : safeOp st op = true) : R (st.step U op) (sp.step U op) := by
   cases op with
   | write b => exact write_R U h b
   | flush => exact flush_R U h
@@ -17,19 +60,23 @@ theorem step_R {st : St} {sp : Sp} (U : Univ) (h : R st sp) (op : Op) (hs : safe
   | merge => exact merge_R U h
   | dropSeries m p => exact dropSeries_R U h m p
   | dropMst m => exact dropMst_R U h m
-  | purge => exact purge_R U h
+  | purge => exact purge_R U h hp
   | tick => exact tick_R U h
   | reopen => exact reopen_R U h hs
   | crash => exact crash_R U h hs
+  | imerge sel => exact imerge_R h sel
+  | mbegin sel => exact mbegin_R h sel
+  | mend => exact mend_R h
+  | regroup gs => exact regroup_R h gs
 
-theorem run_R (U : Univ) (ops : List Op) : ∀ (st : St) (sp : Sp), R st sp → Safe U st ops →
+theorem run_R (U : Univ) (ops : List Op) : ∀ (st : St) (sp : Sp), R st sp → PartsOK st.idx → Safe U st ops →
     R (run U st ops) (specRun U sp ops) := by
   induction ops with
-  | nil => intro st sp h _; exact h
+  | nil => intro st sp h _ _; exact h
   | cons op ops ih =>
-    intro st sp h hs
+    intro st sp h hp hs
     simp only [Safe, safeRun, Bool.and_eq_true] at hs
-    exact ih _ _ (step_R U h op hs.1) hs.2
+    exact ih _ _ (step_R U h hp op hs.1) (partsOK_step U hp op) hs.2
 
 theorem filterMap_congr' {α β : Type} {f g : α → Option β} : ∀ {l : List α}, (∀ x ∈ l, f x = g x) →
     l.filterMap f = l.filterMap g := by
